@@ -225,7 +225,7 @@ class Scatterer(HoloPyObject):
 
 class CenteredScatterer(Scatterer):
     def __init__(self, center=None):
-        if center is not None and (np.isscalar(center) or len(center) != 3):
+        if center is not None and (np.ndim(center) != 1 or len(center) != 3):
             msg = ("center specified as {0}, "
                    "center should be specified as (x, y, z)".format(center))
             raise InvalidScatterer(self, msg)
